@@ -151,13 +151,20 @@ class Problem:
                              'rec3': [('rec', 0), ('rec', 1), ('rec', 2)]}[cons]
         self.crec3 = [0.1 + 4.9 * g(20 + i) for i in range(3)]
         self.m = len(self.funs) - 1
+        self.gscale = 1.0    # factor on every constraint (value scale of the constraints, e.g. stresses in MPa)
         self.shift = 0.0     # added to every constraint value (shift >= 1: no x satisfies g <= 0 without the variable z)
 
     def u(self, x):
         return (np.asarray(x, float) - self.lo) / self.w
 
     def fun(self, i, x):
-        """(value, gradient, Hessian) of response i with respect to x."""
+        """(value, gradient, Hessian) of response i with respect to x; constraints are gscale*g(x) + shift."""
+        v, g, H = self._fun(i, x)
+        if i >= 1:
+            return self.gscale * v + self.shift, self.gscale * g, self.gscale * H
+        return v, g, H
+
+    def _fun(self, i, x):
         x = np.asarray(x, float)
         n, u, w = self.n, self.u(x), self.w
         f = self.funs[i]
@@ -172,18 +179,21 @@ class Problem:
             return np.sum(self.crec / x), -self.crec / x ** 2, np.diag(2 * self.crec / x ** 3)
         if f == 'linear':
             return 2.0 + self.clin @ u, self.clin / w, np.zeros((n, n))
+        if f == 'linpos':      # increasing in every variable (material cost): pushes against 'rec' constraints
+            cp = np.abs(self.clin) + 0.2
+            return 2.0 + cp @ u, cp / w, np.zeros((n, n))
         kind, par = f
         if kind == 'vol':
             den = par * np.sum(self.wvol)
-            return self.wvol @ u / den - 1.0 + self.shift, self.wvol / w / den, np.zeros((n, n))
+            return self.wvol @ u / den - 1.0, self.wvol / w / den, np.zeros((n, n))
         if kind == 'ball':
             d = u - self.cball
             den = n * par ** 2
-            return d @ d / den - 1.0 + self.shift, 2 * d / w / den, np.diag(2.0 / w ** 2 / den)
+            return d @ d / den - 1.0, 2 * d / w / den, np.diag(2.0 / w ** 2 / den)
         if kind == 'rec':
             c = self.crec3[par]
             den = 1.3 * np.sum(c / (self.lo + 0.8 * w))
-            return np.sum(c / x) / den - 1.0 + self.shift, -c / x ** 2 / den, np.diag(2 * c / x ** 3 / den)
+            return np.sum(c / x) / den - 1.0, -c / x ** 2 / den, np.diag(2 * c / x ** 3 / den)
         raise KeyError(f)
 
     def values(self, x):
